@@ -12,7 +12,7 @@
     and [no_forgery mac k issued bs] (the presented blob carries no valid MAC for
     a payload that was never signed).  Both are satisfiable together with the
     length law (see the Examples at the end). *)
-From Coq Require Import List NArith ZArith Bool String.
+From Coq Require Import List NArith ZArith Bool String Lia.
 From Verif Require Import Lib.Bytes Lib.Codec Cred.Sign Cred.Jwt Cred.PassCode
   Cred.SignProofs Cred.JwtProofs Cred.PassCodeProofs Cred.CredGen Gen.CredConsts.
 Import ListNotations.
@@ -53,6 +53,12 @@ Theorem C16_blob_only_issued : forall K (mac : K -> bytes -> bytes) k issued bs 
   In d issued /\ In bs (map (sign mac k) issued).
 Proof. exact @only_issued_verify. Qed.
 Print Assumptions C16_blob_only_issued.
+
+(** Every blob other than the issued one, whatever the edit. *)
+Theorem C16_blob_mutant_rejected : forall K (mac : K -> bytes -> bytes) k d bs,
+  no_forgery mac k [d] bs -> bs <> sign mac k d -> check mac k bs = None.
+Proof. exact @mutant_rejected. Qed.
+Print Assumptions C16_blob_mutant_rejected.
 
 (** Any one byte changed (so any bit flipped) anywhere in an issued blob. *)
 Theorem C16_blob_byte_change_rejected : forall K (mac : K -> bytes -> bytes), mac_len_law mac ->
@@ -103,6 +109,14 @@ Theorem C16_hex_only_issued : forall K (mac : K -> bytes -> bytes),
   check_hex mac k s = Some d -> In d issued /\ In s (map (sign_hex mac k) issued).
 Proof. exact @hex_only_issued_verify. Qed.
 Print Assumptions C16_hex_only_issued.
+
+Theorem C16_hex_mutant_rejected : forall K (mac : K -> bytes -> bytes),
+  mac_len_law mac -> mac_bytes_law mac ->
+  forall k d s,
+  (forall bs, hex_decode s = Some bs -> no_forgery mac k [d] bs) ->
+  s <> sign_hex mac k d -> check_hex mac k s = None.
+Proof. exact @hex_mutant_rejected. Qed.
+Print Assumptions C16_hex_mutant_rejected.
 
 (** * Sessions *)
 
@@ -213,6 +227,15 @@ Theorem C16_jwt_hs_other_signature_text_rejected :
   is_err (hs_verify mac parse_header parse_claims b64_decode_canon k pin now' (p ++ dot :: s')).
 Proof. exact @hs_other_signature_text_rejected. Qed.
 Print Assumptions C16_jwt_hs_other_signature_text_rejected.
+
+(** Every text other than the issued token, whatever the edit. *)
+Theorem C16_jwt_hs_mutant_rejected :
+  forall K (mac : K -> bytes -> bytes) parse_header parse_claims, mac_bytes_law mac ->
+  forall k pin now p0 tok,
+  jwt_no_forgery mac k [p0] tok -> tok <> p0 ++ dot :: b64_encode (mac k p0) ->
+  is_err (hs_verify mac parse_header parse_claims b64_decode_canon k pin now tok).
+Proof. exact @hs_mutant_rejected. Qed.
+Print Assumptions C16_jwt_hs_mutant_rejected.
 
 (** The issued signature under any other header/claims text. *)
 Theorem C16_jwt_hs_other_payload_text_rejected :
@@ -367,6 +390,25 @@ Proof.
     + apply beq_bytes_spec in E. contradiction.
     + vm_compute. discriminate.
   - vm_compute. discriminate.
+Qed.
+
+(** The no-forgery premise holds for a tampered blob that carries no valid
+    MAC (here: first byte changed), and the blob is rejected. *)
+Example C16_no_forgery_satisfiable :
+  let bs := upd 0 9%N (sign toy_mac 7%N [1; 2; 3]%N) in
+  no_forgery toy_mac 7%N [[1; 2; 3]%N] bs /\ bs <> sign toy_mac 7%N [1; 2; 3]%N /\
+  check toy_mac 7%N bs = None.
+Proof.
+  cbv zeta. split; [|split; [vm_compute; discriminate|vm_compute; reflexivity]].
+  intros d E. exfalso.
+  assert (List.length d = 3%nat) as L.
+  { apply (f_equal (@List.length N)) in E. rewrite app_length in E.
+    rewrite (proj1 C16_toy_mac_laws) in E.
+    assert (List.length (upd 0 9%N (sign toy_mac 7%N [1; 2; 3]%N)) = 35%nat) as L0 by (vm_compute; reflexivity).
+    rewrite L0 in E. unfold mac_size in E. lia. }
+  destruct d as [|a [|b [|c [|x r]]]]; try discriminate L.
+  vm_compute in E. injection E as <- <- <- E.
+  vm_compute in E. discriminate E.
 Qed.
 
 (** The issued token verifies; its upper-cased spelling verified before the
